@@ -21,7 +21,7 @@ CODE = ["yowsup/layers/axolotl/layer_send.py:send/receive/processPlaintextNodeAn
         "axolotl/protocolentities/message_encrypted.py, enc.py, receipt_outgoing_retry.py, receipt_incoming_retry.py"]
 BOUNDS = {"quick": "one step per run from a solver-chosen pre-state: 1:1 and group sends (session present / absent, sender key present), every decrypt outcome x envelope type, retry receipt, "
                    "sent-queue bound with 101 sends; message body of symbolic length 0..2^20; ids and JIDs unconstrained strings",
-          "thorough": "same steps with two consecutive messages"}
+          "thorough": "same steps (the two-message steps are part of both tiers)"}
 OUTSIDE = ["the real Signal ratchets, stores and restarts under whole conversations (not encodable: pure-Python loops over C curve/AES calls, multi-party histories) -- the property's end-to-end clause is NOT claimed",
            "observation: python-axolotl's AESCipher does not pad block-aligned plaintext, so 1 in 16 of yowsup's randomly padded messages cannot be decrypted by the peer (external library, see DESIGN.md)",
            "media payload field values (C10), more than two messages, server faults beyond one duplicate / one undecryptable delivery"]
@@ -240,6 +240,34 @@ def h_send_direct(ctx, kind):
     n_enc = len([c for c in mgr.calls if c[0] in ("encrypt", "group_encrypt")])
     obs.append(("exactly one encryption per message (got %d)" % n_enc, n_enc == 1))
     obs.append(("plaintext stanza is kept for a later retry", len(sl.sentQueue) == 1 and sl.sentQueue[0] is node))
+    return obs
+
+
+def h_send_two(ctx, kind):
+    """two consecutive messages: each leaves exactly once as its own envelope, in order, both stay queued for retry"""
+    st, bottom, app, mgr, sl, rl = _stack(ctx, sessions=True, senderkey=True)
+    N = SC.N()
+    to = _jid(ctx, "to", kind == "group")
+    ids, bodies, nodes = [], [], []
+    for i in range(2):
+        mid = H.zstr(ctx, "id%d" % i)
+        L = ctx.int("L%d" % i, 8, 1 << 20)
+        body = H.blob(ctx, "P" if i == 0 else "Q", L)
+        node = N("message", {"to": to, "type": "text", "id": mid}, [N("proto", {}, None, body)])
+        ids.append(mid)
+        bodies.append(body)
+        nodes.append(node)
+        sl.send(node)
+    msgs = [n for n in bottom.down if n.tag == "message"]
+    obs = [("two messages -> exactly two envelopes (got %d)" % len(msgs), len(msgs) == 2 and len(bottom.down) == 2)]
+    for n in bottom.down:
+        for base, body in (("P", bodies[0]), ("Q", bodies[1])):
+            obs.append(("no plaintext body outside an envelope", not (_tainted(n, base) if H.sym(ctx) else _concrete_tainted(n, body))))
+    if len(msgs) == 2:
+        for i in range(2):
+            obs.append(("envelope %d keeps its id (order preserved)" % i, SC.val_eq(hooks.dict_get(msgs[i].attributes, "id"), ids[i])))
+    obs.append(("one encryption per message", len([c_ for c_ in mgr.calls if c_[0] in ("encrypt", "group_encrypt")]) == 2))
+    obs.append(("both originals stay queued for retry, oldest first", len(sl.sentQueue) == 2 and sl.sentQueue[0] is nodes[0] and sl.sentQueue[1] is nodes[1]))
     return obs
 
 
@@ -538,6 +566,8 @@ def cases(tier):
           dict(name="send[1:1,no-session]", fn=h_send_no_session), dict(name="send[group,first message,sessions]", fn=h_send_group_first, args=(True,)),
           dict(name="send[group,first message,no sessions]", fn=h_send_group_first, args=(False,)), dict(name="send[queue-bound]", fn=h_queue_bound), dict(name="retry-receipt", fn=h_retry_receipt), dict(name="group-receipts", fn=h_group_receipts), dict(name="manager-exception-mapping", fn=h_manager_exception_mapping, keep_samples=12),
           dict(name="pad[real manager]", fn=h_padding)]
+    cs.append(dict(name="send2[1:1]", fn=h_send_two, args=("contact",)))
+    cs.append(dict(name="send2[group]", fn=h_send_two, args=("group",)))
     for enctype in ("pkmsg", "msg", "skmsg"):
         for outcome in ("ok", "duplicate", "invalid-message", "invalid-key-id", "no-session", "untrusted"):
             if enctype == "skmsg" and outcome in ("invalid-key-id", "untrusted"):
